@@ -908,6 +908,10 @@ def run(prog, rep, tier):
     rep.floor('SITE-registry', 12)
     rep.floor('JW-entry', 10)
     rep.assumptions += ['operator algebra as dense matrices is NOT decided']
+    from ..flow import check_dead_computations
+    rep.rule('VALUE-dead', 'no result of a call is bound to a local that is never read (reaching '
+             'definitions)')
+    check_dead_computations(prog, rep, ['tenpy/networks/site.py'])
     return rep.finish(
         level='other',
         explanation='Operator-registry coupling, Jordan-Wigner routing, parameter-family '
